@@ -514,7 +514,13 @@ func genMotif(r *rand.Rand, m int, in *kvInput, exists map[string]bool, hot []st
 		}
 	}
 	inserter := func() *KOp {
-		switch r.Intn(5) {
+		switch r.Intn(8) {
+		case 5:
+			return &KOp{Kind: "Set", Exp: genExp(r), Preserve: r.Intn(3) == 0, Val: sp(pick(r, jsonBodies))}
+		case 6:
+			return &KOp{Kind: "SetRaw", Val: sp(pick(r, rawBodies))}
+		case 7:
+			return &KOp{Kind: "Incr", Amt: uint64(r.Intn(3)), Deflt: 7}
 		case 0:
 			return &KOp{Kind: "Add", Exp: genExp(r), Val: sp(pick(r, jsonBodies))}
 		case 1:
@@ -559,11 +565,19 @@ func genMotif(r *rand.Rand, m int, in *kvInput, exists map[string]bool, hot []st
 			kv(xattrWrite())
 		}
 		kv(inserter())
+		if r.Intn(2) == 0 {
+			// purge after the re-creation: only what is still a tombstone may go
+			in.Ops = append(in.Ops, Step{Kind: "purge", Handle: h, Clock: next()})
+		}
 		kv(inserter())
 		kv(read())
 		if r.Intn(2) == 0 {
 			kv(deleter())
 			kv(bodyWrite())
+			if r.Intn(2) == 0 {
+				in.Ops = append(in.Ops, Step{Kind: "purge", Handle: h, Clock: next()})
+				kv(inserter())
+			}
 		}
 	case motifDDocSwap:
 		a, b := 0, 1
